@@ -216,6 +216,31 @@ func runC17(c *Ctx) {
 			trees = append(trees, &VT{Kind: 'M', Keys: []string{string(r)}, Items: []*VT{{Kind: 's', S: "v"}}})
 		}
 	}
+	// position sweep: every class of character that needs an escape (or is copied as a multi-byte sequence) at every byte offset
+	// 0..320 of a long string and of a long key, behind fillers of 1-, 2-, 3- and 4-byte runes. A writer that works in chunks (a
+	// buffer of 64 bytes, a flush threshold) treats a character differently depending on where it falls (round-5 seed C17-14:
+	// a 6-byte \u00XX escape cut off at offset 59/60 of a 64-byte chunk); the random strings are far shorter than that.
+	{
+		special := []string{"\x01", "\x1f", "\"", "\\", "\n", "\t", "\x7f", "é", "€", "\U0001F600", "\u2028", "<"}
+		fillers := []string{"a", "é", "€", "\U00010000"}
+		for off := 0; off <= 320; off++ {
+			sp := special[off%len(special)]
+			for fi, fill := range fillers {
+				if fi > 0 && off%4 != fi {
+					continue // the multi-byte fillers shift the offsets: a quarter of the positions each
+				}
+				pre := strings.Repeat(fill, off/len(fill)) + strings.Repeat("a", off%len(fill))
+				for si := 0; si < 3; si++ { // three different specials per offset
+					sp = special[(off+si*5)%len(special)]
+					str := pre + sp + "tail" + sp
+					trees = append(trees, &VT{Kind: 'L', Items: []*VT{{Kind: 's', S: str}}})
+					if si == 0 {
+						trees = append(trees, &VT{Kind: 'M', Keys: []string{str}, Items: []*VT{{Kind: 's', S: str}}})
+					}
+				}
+			}
+		}
+	}
 	for i := 0; i < n; i++ {
 		trees = append(trees, genVT(c.rng, 1+c.rng.Intn(5), strGen))
 	}
